@@ -46,6 +46,57 @@ def run(chk: Check, proj: Project) -> None:
     s6(chk, proj, m)
     s7(chk, proj, m, fc)
     s8(chk, proj, m, fc)
+    s9(chk, proj, m, fc, fs)
+
+
+def s9(chk: Check, proj: Project, m, fc, fs) -> None:
+    chk.rule("S9", "boundaries: a positional argument is mapped to a parameter NAME only while its index is strictly below the number of named positional parameters (the slot after them is *args); the set a keyword is looked up in and the set whose complement goes to **kwargs are the same set (a name in neither is wrongly rejected)")
+    n = 0
+    for f in (fc, fs):
+        curs = {x.target.id for x in ast.walk(f) if isinstance(x, ast.AugAssign) and isinstance(x.op, ast.Add) and isinstance(x.target, ast.Name) and isinstance(x.value, ast.Constant) and x.value.value == 1}
+        for iff in [x for x in ast.walk(f) if isinstance(x, ast.If)]:
+            t = iff.test
+            if not (isinstance(t, ast.Compare) and len(t.ops) == 1 and isinstance(t.left, ast.Name) and t.left.id in curs and isinstance(t.comparators[0], ast.Name)):
+                continue
+            # the guarded block indexes a name list with the cursor
+            idx = [sub for sub in ast.walk(iff) if isinstance(sub, ast.Subscript) and isinstance(sub.slice, ast.Name) and sub.slice.id == t.left.id and any(sub is y for st in iff.body for y in ast.walk(st))]
+            if not idx:
+                continue
+            n += 1
+            ok = isinstance(t.ops[0], ast.Lt)
+            chk.ob("S9", f"util.template_tag:{f.name}:positional-name-guard-strict", m.loc(iff), ok,
+                   f"`{norm(t)}` (strict) guards `{norm(idx[0])}`" if ok else
+                   f"`{norm(t)}` lets the index reach the count: the first positional that overflows into *args is mapped to the *args parameter's own name and marks it used, so `{{% tag 1 2 args=3 %}}` raises 'multiple values' where Python binds kwargs={{'args': 3}}")
+    chk.floor("S9", n, 1)
+    # complement consistency in the fast path
+    hit = 0
+    for b in [x for x in ast.walk(fc) if isinstance(x, ast.BoolOp) and isinstance(x.op, ast.Or) and len(x.values) == 2]:
+        a, c = b.values
+        inn = a if isinstance(a, ast.Compare) and isinstance(a.ops[0], ast.In) else None
+        neg = next((v for v in (c.values if isinstance(c, ast.BoolOp) else [c]) if isinstance(v, ast.Compare) and isinstance(v.ops[0], ast.NotIn)), None)
+        if inn is None or neg is None or norm(inn.left) != norm(neg.left):
+            continue
+        hit += 1
+
+        def base(e: ast.AST, depth: int = 0):
+            """(collection name, lower bound text or None)"""
+            if isinstance(e, ast.Name) and depth < 3:
+                d = [v for _s, v in assignments(fc, e.id) if v is not None]
+                if len(d) == 1 and isinstance(d[0], ast.Subscript) and isinstance(d[0].slice, ast.Slice):
+                    return base(d[0], depth + 1)
+                return (e.id, None)
+            if isinstance(e, ast.Subscript) and isinstance(e.slice, ast.Slice) and isinstance(e.value, ast.Name):
+                lo = e.slice.lower
+                return (e.value.id, None if lo is None or (isinstance(lo, ast.Constant) and lo.value == 0) else norm(lo))
+            return (norm(e), "?")
+
+        s_in, s_not = base(inn.comparators[0]), base(neg.comparators[0])
+        ok = s_in[0] == s_not[0] and s_in[1] is None and s_not[1] is None
+        chk.ob("S9", "util.template_tag:_validate_params_with_code:kwarg-sets-complementary", m.loc(b), ok,
+               f"`{norm(inn.comparators[0])}` and `{norm(neg.comparators[0])}` start at the same element of `{s_in[0]}`" if ok else
+               f"a keyword is accepted if it is in `{norm(inn.comparators[0])}` or (with **kwargs) NOT in `{norm(neg.comparators[0])}` - the first set starts later than the second: a name that is only in the second (a positional-only parameter's name) is in neither, so `{{% tag 1 a=2 %}}` on `def render(self, context, a, /, **kwargs)` is rejected although Python puts it into **kwargs")
+    if hit == 0:
+        chk.undecided("S9", "util.template_tag:_validate_params_with_code:kwarg-sets-complementary", m.loc(fc), "`key in S or (has_var_keyword and key not in S')` not found")
 
 
 def _linear(f: ast.AST, e: ast.AST, stop: Set[str], depth: int = 0) -> Optional[Dict[str, int]]:
